@@ -6,6 +6,13 @@ flex-flex and flex-geom collision) in several worlds with random vertex displace
 (MuJoCo 3.13 C, float64) on the same float32 state: flexvert_xpos, flexedge_length / velocity / J, qfrc_spring / damper /
 passive with cmp.judge and a measured noise floor; flex contacts and constraint rows as multisets; qacc only under the
 gating rule of DESIGN section 3.
+
+Second family ("mix" cases): contact-parameter mixing of flex-geom and flex-flex contacts.  Every collidable object of the
+scene (plane, primitive / mesh geoms, one or two flexes) carries its own, unequal priority / solmix / solref (standard and
+direct form) / solimp / friction / margin / gap / condim, every third case additionally with per-world rows of the batched
+geom_* parameter fields.  Oracle: contact.solref / solimp / friction per colliding pair (they depend on the two objects
+only, so they are compared whether or not the contact sets of the two engines agree), contact.dim / includemargin per pair
+and primitive kind, and efc D / aref of the contact rows where the contact multisets match.
 """
 
 import mujoco
@@ -21,13 +28,20 @@ RULE = (
   "trilinear}, pinned vertices, one passive mechanism (edge stiffness+damping for cables, elasticity young/poisson/damping/"
   "thickness/elastic2d for cloth and solids) or one constraint mechanism (edge equality, strain equality), selfcollide in "
   "{none,narrow,bvh,sap,auto}, 0..3 primitive / mesh geoms or a plane placed at contact distance; Euler or RK4; both cones; "
-  "dense / sparse Jacobian; 2-3 worlds with different qpos / qvel noise. Non-trivial: flex with >=3 vertices displaced from "
-  "qpos0 and at least one active flex mechanism; distinct by hash(xml, qpos, qvel)."
+  "dense / sparse Jacobian; 2-3 worlds with different qpos / qvel noise. Mixing family (case kind 'mix'): flex f0 (dim 1/2/3) "
+  "resting on a plane and / or under 1-2 primitive or mesh geoms and / or under a second flex, at penetration or inside the "
+  "summed margin; each side draws priority (all equal in 60% of the cases, else per side from {-1,0,1,2}), solmix from "
+  "{0, 1e-16, 0.2, 1, 3, 10}, solref standard (timeconst down to below 2*timestep) or direct, solimp (incl. values the "
+  "impedance has to clip), friction, margin, gap (12%), condim; 3 worlds; every third case gives the geoms different "
+  "solmix / solref / solimp / friction / margin / gap per world through Model fields with 2 or 3 rows. Non-trivial: flex with "
+  ">=3 vertices displaced from qpos0 and at least one active flex mechanism; distinct by hash(xml, qpos, qvel)."
 )
 ASSUMPTIONS = [
   "MuJoCo 3.13 C (float64) mj_forward is the reference at the same float32-representable state; MuJoCo 3.13 refuses flex + implicit integrators, so only Euler / RK4 models are generated",
   "models that put_model refuses (quadratic interpolation, internal collisions, flex with hfield / SDF geoms, flex equality + sleeping) are counted as rejected, not as findings",
   "pre-solver fields use allowance 2e-5*scale + 50*measured reference noise (violation above 30x); contacts and constraint rows are compared as multisets keyed by (geom, flex, elem, vert) and (type, id); a contact whose reference distance is within 1e-5 of its activation margin, or whose key set changes under the ulp probe, is inconclusive",
+  "contact.solref / solimp / friction are functions of the two colliding objects alone (mj_contactParam), so one MuJoCo contact of a (geom, flex) / (flex, flex) pair is the reference for every MJWarp contact of that pair (allowance 1e-6*scale, no noise term); contact.dim and includemargin are compared per pair and primitive kind (vertex / element); efc.aref of a row is judged only where the row's J and pos agree (it is downstream of both), with the per-row spread of MuJoCo's aref / D under the Cartesian float32 probe as noise",
+  "per-world geom parameters: world w of a Model whose batched geom_* fields have n rows reads row w % n (documented batching rule); the reference of world w is a copy of the MjModel with that row written into it",
   "qacc is not part of the property statement: under the gating rule (contact and row multisets matched, no iteration limit, stable reference) its agreement is only tallied (gated_qacc_agrees / greyzone / differs); the single exception is FLEXSTRAIN + sparse Jacobian + Newton, where matched rows with a non-optimal result are reported",
 ]
 BUDGET = {"quick": 150, "thorough": 1500}
@@ -42,7 +56,17 @@ PRE = ("flexvert_xpos", "flexedge_length", "flexedge_velocity", "qfrc_spring", "
 def cases(tier, seed):
   n = 80 if tier == "quick" else 1200
   out = [{"id": f"crash_{k}", "kind": "crash", "probe": k, "seed": 0, "weight": 3} for k in CRASH_PROBES]
-  return out + [{"id": f"s{seed}_{i}", "seed": seed * 100000 + i} for i in range(n)]
+  nmix = 40 if tier == "quick" else 500
+  # contact-parameter mixing family (every third case with per-world geom parameters); interleaved so that a run cut short by the budget sees both
+  mixc = [{"id": f"mix{seed}_{i}", "kind": "mix", "seed": 7000000 + seed * 100000 + i, "perworld": i % 3 == 2} for i in range(nmix)]
+  gen_ = [{"id": f"s{seed}_{i}", "seed": seed * 100000 + i} for i in range(n)]
+  step = max(1, n // nmix)
+  inter = []
+  for i, c in enumerate(gen_):
+    inter.append(c)
+    if i % step == step - 1 and mixc:
+      inter.append(mixc.pop(0))
+  return out + inter + mixc
 
 
 # ------------------------------------------------------------------------------------ directed crash probes
@@ -331,8 +355,210 @@ def make_xml(seed):
   return xml, sorted(feat), infos
 
 
-def sample_state(mjm, rng, infos):
-  amp = float(rng.choice([0.002, 0.01, 0.03])) * (infos[0]["spacing"] / 0.1)
+# ------------------------------------------------------------------------------------ contact-parameter mixing family
+# Every collidable object (each geom, each flex) gets its own, UNEQUAL contact attributes, so that the parameters of a
+# flex-geom / flex-flex contact depend on how the two sides are combined (mj_contactParam): priority decides or, at equal
+# priority, solmix weights (either / both below mjMINVAL, unequal weights) blend solref (standard form; direct = negative
+# form takes the minimum) and solimp, friction takes the maximum, condim the maximum, margin and gap are summed.
+
+MIX_SHAPES = {1: ((4, 1, 1), (6, 1, 1)), 2: ((3, 3, 1), (3, 4, 1)), 3: ((2, 2, 2), (3, 2, 2))}
+MIX_GEOMS = ("sphere", "capsule", "cylinder", "box", "ellipsoid", "mesh")
+
+
+def mix_side(rng, prio, extreme_ok=True):
+  """Random contact attributes of one collision side (dict of MJCF attribute strings)."""
+  a = {"priority": str(int(prio))}
+  a["solmix"] = _f(rng.choice([0.0, 1e-16, 0.2, 1.0, 1.0, 3.0, 10.0], p=[0.08, 0.08, 0.2, 0.12, 0.12, 0.2, 0.2]))
+  if rng.random() < 0.75:
+    a["solref"] = _f([rng.choice([0.003, 0.01, 0.02, 0.05], p=[0.1, 0.3, 0.3, 0.3]), rng.choice([0.3, 0.7, 1.0, 1.5])])
+  else:
+    a["solref"] = _f([-float(rng.choice([200.0, 1000.0, 5000.0])), -float(rng.choice([5.0, 20.0, 100.0]))])
+  dmin = float(rng.uniform(0.5, 0.93))
+  imp = [dmin, float(rng.uniform(dmin, 0.99)), float(rng.choice([0.001, 0.005, 0.02])), float(rng.uniform(0.2, 0.8)), float(rng.choice([1, 2, 3]))]
+  if extreme_ok and rng.random() < 0.12:  # values getimpedance has to clip (dmin / mid / power below their floors, zero width)
+    k = int(rng.integers(4))
+    if k == 0:
+      imp[0] = 0.0
+    elif k == 1:
+      imp[2] = 0.0
+    elif k == 2:
+      imp[3] = float(rng.choice([0.0, 1.0]))
+    else:
+      imp[4] = 0.5
+  a["solimp"] = _f(imp)
+  a["friction"] = _f([rng.uniform(0.1, 1.5), rng.uniform(0.001, 0.05), rng.uniform(0.0001, 0.005)])
+  a["margin"] = _f(rng.choice([0.0, 0.0, 0.002, 0.005, 0.01]))
+  if rng.random() < 0.12:
+    a["gap"] = _f(rng.choice([0.001, 0.002]))
+  a["condim"] = str(rng.choice([1, 3, 3, 4, 6]))
+  return a
+
+
+def mix_flex(rng, name, dim, center, radius, sp, mech, side):
+  count = MIX_SHAPES[dim][int(rng.integers(2))]
+  a = {"name": name, "type": "grid", "count": " ".join(str(c) for c in count), "spacing": _f([sp] * 3), "dim": str(dim), "mass": _f(rng.uniform(0.2, 2.0)), "radius": _f(radius), "pos": _f(center)}
+  inner = []
+  if mech == "edge-equality" or dim == 1:
+    mech = "edge-equality"
+    inner.append('<edge equality="true"/>')
+  else:
+    e = {"young": _f(10 ** rng.uniform(3, 5)), "poisson": _f(rng.uniform(0, 0.45)), "damping": _f(rng.choice([0.001, 0.01]))}
+    if dim == 2:
+      e["thickness"] = _f(rng.choice([0.002, 0.01]))
+      e["elastic2d"] = str(rng.choice(["none", "stretch"]))
+    inner.append("<elasticity " + " ".join(f'{k}="{v}"' for k, v in e.items()) + "/>")
+  c = {"selfcollide": "none", "internal": "false"}
+  c.update(side)
+  inner.append("<contact " + " ".join(f'{k}="{v}"' for k, v in c.items()) + "/>")
+  xml = "<flexcomp " + " ".join(f'{k}="{v}"' for k, v in a.items()) + ">" + "".join(inner) + "</flexcomp>"
+  half = (np.array(count) - 1) * sp / 2
+  return xml, {"count": list(count), "spacing": sp, "radius": radius, "extent": np.array(count) * sp, "half": half, "dim": dim, "dof": "full", "mech": mech, "e2d": None}
+
+
+def make_mix_xml(seed):
+  """Scene of the mixing family: flex f0 over a plane and / or under primitive geoms and / or under a second flex."""
+  rng = np.random.default_rng(seed + 77)
+  feat = {"family:mix", "collision:on"}
+  layout = str(rng.choice(["plane", "plane+geoms", "geoms", "flex-flex", "flex-flex+plane"], p=[0.35, 0.2, 0.1, 0.2, 0.15]))
+  feat.add("mix_layout:" + layout)
+  # priorities: all equal (the blending branch) or drawn per side (the priority branch)
+  equal_prio = rng.random() < 0.6
+  p0 = int(rng.choice([-1, 0, 0, 2]))
+  prio = lambda: p0 if equal_prio else int(rng.choice([-1, 0, 0, 1, 2]))  # noqa: E731
+  feat.add("mix_priorities:" + ("equal" if equal_prio else "per-side"))
+  mech = str(rng.choice(["edge-equality", "elasticity"], p=[0.6, 0.4]))
+  dim = int(rng.choice([1, 2, 3], p=[0.25, 0.45, 0.3]))
+  sp = float(rng.choice([0.08, 0.1]))
+  radius = float(rng.choice([0.005, 0.01, 0.02]))
+  z0 = float(rng.uniform(0.2, 0.5))
+  sides = {"f0": mix_side(rng, prio())}
+  fx, info = mix_flex(rng, "f0", dim, [0, 0, z0], radius, sp, mech, sides["f0"])
+  infos = [info]
+  feat.update({f"dim{dim}", "dof:full", "mech:" + info["mech"], "selfcollide:none"})
+  m0 = float(sides["f0"]["margin"])
+  zbot = z0 - info["half"][2] - radius
+  ztop = z0 + info["half"][2] + radius
+  geoms, second = [], ""
+
+  def depth(margin):
+    # signed distance of the touching surfaces: penetrating, or inside the activation margin
+    return float(rng.uniform(-0.004, -0.0005)) if (margin <= 0 or rng.random() < 0.5) else float(rng.uniform(0.1, 0.8) * margin)
+
+  if "plane" in layout:
+    s = mix_side(rng, prio())
+    sides["g_plane"] = s
+    g = {"name": "g_plane", "type": "plane", "size": "1 1 0.1", "pos": _f([0, 0, zbot - depth(m0 + float(s["margin"]))])}
+    if rng.random() < 0.3:
+      g["euler"] = _f([rng.uniform(-0.05, 0.05), rng.uniform(-0.05, 0.05), 0])
+    g.update(s)
+    geoms.append(g)
+    feat.add("geom:plane")
+  if "geoms" in layout:
+    for k in range(int(rng.integers(1, 3))):
+      t = str(rng.choice(MIX_GEOMS))
+      feat.add("geom:" + t)
+      s = mix_side(rng, prio())
+      sides[f"g{k}"] = s
+      g = {"name": f"g{k}", "type": t}
+      r = float(rng.uniform(0.03, 0.08))
+      if t == "sphere":
+        g["size"], hz = _f(r), r
+      elif t in ("capsule", "cylinder"):
+        g["size"], hz = _f([r * 0.6, r]), r + (r * 0.6 if t == "capsule" else 0)
+      elif t in ("box", "ellipsoid"):
+        s3 = rng.uniform(0.03, 0.08, size=3)
+        g["size"], hz = _f(s3), float(s3[2])
+      else:
+        g["mesh"], hz = "wedge", 0.1
+      px = rng.uniform(-1, 1) * info["half"][0] * 0.8
+      py = rng.uniform(-1, 1) * info["half"][1] * 0.8
+      g["pos"] = _f([px, py, ztop + depth(m0 + float(s["margin"])) + hz])
+      g.update(s)
+      geoms.append(g)
+  if "flex-flex" in layout:
+    d2 = int(rng.choice([1, 2, 3], p=[0.2, 0.5, 0.3]))
+    r2 = float(rng.choice([0.005, 0.01, 0.02]))
+    s = mix_side(rng, prio())
+    sides["f1"] = s
+    half2z = sp / 2 if d2 == 3 else 0.0
+    c2 = [float(rng.uniform(-0.03, 0.03)), float(rng.uniform(-0.03, 0.03)), ztop + depth(m0 + float(s["margin"])) + r2 + half2z]
+    second, info2 = mix_flex(rng, "f1", d2, c2, r2, sp, mech, s)
+    infos.append(info2)
+    feat.update({"two_flexes", f"dim{d2}", "mech:" + info2["mech"]})
+  integ = str(rng.choice(["Euler", "Euler", "RK4"]))
+  cone = str(rng.choice(["pyramidal", "elliptic"]))
+  jac = str(rng.choice(["dense", "sparse", "auto"]))
+  nvert_total = sum(int(np.prod(i["count"])) for i in infos)
+  if 3 * nvert_total + 6 > 60 and jac == "dense":
+    jac = "sparse"
+  solver = str(rng.choice(["Newton", "Newton", "CG"]))
+  feat.update({"integrator:" + integ, "cone:" + cone, "jacobian:" + jac, "solver:" + solver, "parent:world"})
+  gx = "".join("<geom " + " ".join(f'{k}="{v}"' for k, v in g.items()) + "/>" for g in geoms)
+  xml = f"""<mujoco model="flexmix{seed}">
+  <option timestep="0.002" integrator="{integ}" cone="{cone}" jacobian="{jac}" solver="{solver}" tolerance="1e-10" iterations="200"/>
+  <size memory="50M"/>
+  <asset><mesh name="wedge" vertex="-0.1 -0.1 -0.1  0.1 -0.1 -0.1  0.1 0.1 -0.1  -0.1 0.1 -0.1  0 -0.1 0.1  0 0.1 0.1"/></asset>
+  <worldbody>
+    <geom name="inert" type="sphere" size="0.01" pos="3 3 3" contype="0" conaffinity="0"/>
+    {gx}
+    {fx}
+    {second}
+  </worldbody>
+</mujoco>"""
+  return xml, sorted(feat), infos, rng
+
+
+# batched Model fields read by the flex contact-parameter code (collision_flex._write_filtered_contacts: row worldid % leading size)
+GEOM_BATCHED = ("geom_solmix", "geom_solref", "geom_solimp", "geom_friction", "geom_margin", "geom_gap")
+
+
+def per_world_geom_params(mjm, m, rng, nworld):
+  """Gives the collidable geoms different contact parameters per world (domain randomisation of batched Model fields).
+
+  Returns the per-world reference models: world w of `m` is mjms[w] by the documented rule 'world w reads row w % leading size'.
+  """
+  import copy
+
+  import warp as wp
+
+  gsel = [g for g in range(mjm.ngeom) if mjm.geom_contype[g] or mjm.geom_conaffinity[g]]
+  rows_of = {}
+  for f in GEOM_BATCHED:
+    if rng.random() < 0.25:
+      continue
+    b = int(rng.choice([2, nworld]))
+    base = np.array(getattr(mjm, f), dtype=np.float64)
+    rows = [base.copy() for _ in range(b)]
+    for r in range(1, b):
+      for g in gsel:
+        if f == "geom_solmix":
+          rows[r][g] = float(rng.choice([0.0, 0.3, 2.0, 7.0]))
+        elif f == "geom_solref":
+          rows[r][g] = [float(rng.choice([0.008, 0.03, 0.06])), float(rng.choice([0.4, 0.9, 1.3]))] if rng.random() < 0.7 else [-float(rng.choice([300.0, 2000.0])), -float(rng.choice([10.0, 50.0]))]
+        elif f == "geom_solimp":
+          lo = float(rng.uniform(0.5, 0.9))
+          rows[r][g] = [lo, float(rng.uniform(lo, 0.99)), float(rng.choice([0.002, 0.01])), float(rng.uniform(0.2, 0.8)), float(rng.choice([1, 2]))]
+        elif f == "geom_friction":
+          rows[r][g] = [float(rng.uniform(0.1, 1.5)), float(rng.uniform(0.001, 0.05)), float(rng.uniform(0.0001, 0.005))]
+        elif f == "geom_margin":
+          rows[r][g] = float(rng.choice([0.0, 0.003, 0.008]))
+        else:
+          rows[r][g] = float(rng.choice([0.0, 0.0, 0.001]))
+    rows_of[f] = [x.astype(np.float32) for x in rows]
+  mjms = []
+  for w in range(nworld):
+    mw_ = copy.copy(mjm)
+    for f, rows in rows_of.items():
+      getattr(mw_, f)[:] = rows[w % len(rows)].astype(np.float64)
+    mjms.append(mw_)
+  for f, rows in rows_of.items():
+    old = getattr(m, f)
+    setattr(m, f, wp.array(np.stack(rows), dtype=old.dtype))
+  return mjms, {f: len(r) for f, r in rows_of.items()}
+
+
+def sample_state(mjm, rng, infos, amps=(0.002, 0.01, 0.03)):
+  amp = float(rng.choice(list(amps))) * (infos[0]["spacing"] / 0.1)
   qpos = np.array(mjm.qpos0)
   qpos += rng.normal(size=mjm.nq) * amp
   for j in range(mjm.njnt):
@@ -411,7 +637,53 @@ def extract(mjm, mjd):
   keys = sorted(contact_key(c.geom, c.flex, c.elem, c.vert) for c in mjd.contact)
   out["_contact_keys"] = np.array(keys, dtype=np.float64).reshape(len(keys), 8)
   out["_nefc"] = np.array([mjd.nefc, mjd.ne, mjd.nf, mjd.nl], dtype=np.float64)
+  # conditioning of the constraint rows' reference acceleration and (relative) regulariser under the ulp probes
+  out["_efc_aref"] = np.array(mjd.efc_aref)
+  out["_efc_lnD"] = np.log(np.maximum(np.array(mjd.efc_D), 1e-300))
   return out
+
+
+MJ_MINVAL = 1e-15
+
+
+def pair_cover(rec, mjm, pk):
+  """Coverage counters: which branch of the parameter mixing a compared pair exercises (values read from the MjModel)."""
+  g0, g1, f0, f1 = pk
+  side = []
+  for g in (g0, g1):
+    if g >= 0:
+      side.append((int(mjm.geom_priority[g]), float(mjm.geom_solmix[g]), np.array(mjm.geom_solref[g]), np.array(mjm.geom_solimp[g]), np.array(mjm.geom_friction[g]), float(mjm.geom_margin[g]), float(mjm.geom_gap[g]), int(mjm.geom_condim[g])))
+  for f in (f0, f1):
+    if f >= 0:
+      side.append((int(mjm.flex_priority[f]), float(mjm.flex_solmix[f]), np.array(mjm.flex_solref[f]), np.array(mjm.flex_solimp[f]), np.array(mjm.flex_friction[f]), float(mjm.flex_margin[f]), float(mjm.flex_gap[f]), int(mjm.flex_condim[f])))
+  if len(side) != 2 or (f0 == f1 and g0 < 0 and g1 < 0):
+    return
+  a, b = side
+  if a[0] != b[0]:
+    rec.cover("mix:pairs_priority_decides", 1)
+  else:
+    rec.cover("mix:pairs_equal_priority", 1)
+    lo = (a[1] < MJ_MINVAL) + (b[1] < MJ_MINVAL)
+    direct = (a[2][0] <= 0) + (b[2][0] <= 0)
+    differ = bool(np.any(a[3] != b[3]) or (direct == 0 and np.any(a[2] != b[2])))
+    if lo == 0 and a[1] != b[1] and differ:
+      rec.cover("mix:pairs_blend_with_unequal_solmix", 1)
+    elif lo == 0 and differ:
+      rec.cover("mix:pairs_blend_with_equal_solmix", 1)
+    elif lo == 1 and differ:
+      rec.cover("mix:pairs_solmix_one_side_below_minval", 1)
+    elif lo == 2 and differ:
+      rec.cover("mix:pairs_solmix_both_sides_below_minval", 1)
+    if direct:
+      rec.cover("mix:pairs_solref_direct_" + ("one_side" if direct == 1 else "both_sides"), 1)
+    if np.any(a[4] != b[4]):
+      rec.cover("mix:pairs_unequal_friction", 1)
+    if a[7] != b[7]:
+      rec.cover("mix:pairs_unequal_condim", 1)
+  if a[5] > 0 and b[5] > 0:
+    rec.cover("mix:pairs_margin_on_both_sides", 1)
+  if a[6] > 0 or b[6] > 0:
+    rec.cover("mix:pairs_with_gap", 1)
 
 
 def run_case(case):
@@ -422,7 +694,11 @@ def run_case(case):
   rec = core.Rec(case)
   seed = case["seed"]
   rng = np.random.default_rng(seed + 5)
-  xml, feat, infos = make_xml(seed)
+  mix = case.get("kind") == "mix"
+  if mix:
+    xml, feat, infos, mrng = make_mix_xml(seed)
+  else:
+    xml, feat, infos = make_xml(seed)
   try:
     mjm = mujoco.MjModel.from_xml_string(xml)
   except Exception as e:  # noqa
@@ -507,7 +783,19 @@ def run_case(case):
     return f"{same}:{prim}(dim{int(mjm.flex_dim[f0_])},dim{int(mjm.flex_dim[f1_])})"
 
   nworld = 2 + int(seed % 2)
-  states = [sample_state(mjm, rng, infos) for _ in range(nworld)]
+  mjms = [mjm] * nworld
+  if mix:
+    nworld = 3
+    mjms = [mjm] * nworld
+    if case.get("perworld"):
+      mjms, lead = per_world_geom_params(mjm, m, mrng, nworld)
+      for f_, b_ in lead.items():
+        rec.cover(f"mix:batched_field_rows:{f_}", b_)
+      feat = sorted(set(feat) | {"mix_per_world_geom_params"})
+      any_gap = bool(any_gap or any(np.any(x.geom_gap != 0) for x in mjms))
+    states = [sample_state(mjm, rng, infos, amps=(0.001, 0.003, 0.01)) for _ in range(nworld)]
+  else:
+    states = [sample_state(mjm, rng, infos) for _ in range(nworld)]
   d = mw.make_data(mjm, m, states, nconmax=400, njmax=1600)
   mw.zero_overflow(d)
   mjw.forward(m, d)
@@ -522,8 +810,9 @@ def run_case(case):
   niter = mw.npy(d.solver_niter)
   displaced = False
   for w in range(nworld):
+    mjm_w = mjms[w]  # same structure as mjm; differs only in per-world geom contact parameters (mixing family)
     try:
-      ref, noise, mjd = cmp.reference(mjm, states[w], stage, extract, seed=seed + w)
+      ref, noise, mjd = cmp.reference(mjm_w, states[w], stage, extract, seed=seed + w)
     except mujoco.FatalError as e:
       rec.inconcl(f"reference engine failed: {e}"[:120])
       rec.count("worlds_reference_engine_error")
@@ -532,16 +821,20 @@ def run_case(case):
     # displacement, its ulp is far below the rounding of body_pos + qpos in float32)
     prng = np.random.default_rng(seed * 31 + w)
     amp = 1.2e-7 * max(1.0, float(np.abs(ref["flexvert_xpos"]).max()) if ref["flexvert_xpos"].size else 1.0)
+    rownoise = {k: np.zeros(ref[k].shape) for k in ("_efc_aref", "_efc_lnD")}
     for _ in range(2):
       st2 = dict(states[w])
       st2["qpos"] = states[w]["qpos"].astype(np.float64) + prng.uniform(-1, 1, size=mjm.nq) * amp
       mjd2 = mujoco.MjData(mjm)
       mw.apply_state_mj(mjm, mjd2, st2)
       try:
-        mujoco.mj_forward(mjm, mjd2)
+        mujoco.mj_forward(mjm_w, mjd2)
       except mujoco.FatalError:
         continue
       alt = extract(mjm, mjd2)
+      for k in ("_efc_aref", "_efc_lnD"):  # per-row conditioning (the scalar noise[k] is the maximum over all rows)
+        if np.asarray(alt[k]).shape == ref[k].shape:
+          rownoise[k] = np.maximum(rownoise[k], np.abs(np.asarray(alt[k]) - ref[k]))
       for k in ref:
         a_ = np.asarray(alt[k], dtype=np.float64)
         noise[k] = float("inf") if a_.shape != ref[k].shape else max(noise[k], float(np.abs(a_ - ref[k]).max()) if a_.size else 0.0)
@@ -661,6 +954,42 @@ def run_case(case):
             if int(con["dim"][gi]) != int(c.dim):
               rec.viol("contact.dim:" + path(key), f"{ctx}: contact dim {int(con['dim'][gi])} vs {int(c.dim)} key {key}")
 
+    # ---- contact parameters per colliding pair.  solref / solimp / friction of a contact are a function of the two
+    # colliding objects alone (mj_contactParam: priority, solmix blend, direct-solref minimum, friction maximum), so they are
+    # compared for every (geom, flex) / (flex, flex) pair that has contacts in both engines, whether or not the contact
+    # sets agree; dim and includemargin per pair and primitive kind (vertex / element contact)
+    pok = True
+    rp, gp, rq, gq = {}, {}, {}, {}
+    for src, pp, qq in ((rkeys, rp, rq), (gkeys, gp, gq)):
+      for k_, idx in src.items():
+        pp.setdefault(k_[:4], []).extend(idx)
+        qq.setdefault(k_[:4] + tuple(x >= 0 for x in k_[4:]), []).extend(idx)
+    for pk in sorted(set(rp) & set(gp)):
+      pth = path(pk)
+      pair_cover(rec, mjm_w, pk)
+      for fld in ("solref", "solimp", "friction"):
+        Rv = np.array([np.array(getattr(mjd.contact[i], fld)) for i in rp[pk]])
+        if np.abs(Rv - Rv[0]).max() > 0:
+          rec.count("pairs_reference_parameters_not_uniform")
+          continue
+        Gv = np.array([con[fld][i] for i in gp[pk]], dtype=np.float64)
+        pok &= "ok" == judge(rec, "contact." + fld, Gv, np.broadcast_to(Rv[0], Gv.shape), 1e-6, 0, suffix=":" + pth, ctx=f"{ctx} pair (geom,geom,flex,flex)={pk}, {len(gp[pk])} MJWarp / {len(rp[pk])} MuJoCo contacts")
+      rec.cover("contact_pairs_parameters_compared:" + pth, 1)
+    for qk in sorted(set(rq) & set(gq)):
+      pth = path(qk)
+      Rd = sorted(set(int(mjd.contact[i].dim) for i in rq[qk]))
+      Gd = sorted(set(int(con["dim"][i]) for i in gq[qk]))
+      if len(Rd) == 1:
+        rec.check()
+        if Gd != Rd:
+          pok = False
+          rec.viol("contact.dim:" + pth, f"{ctx}: contact dim {Gd} vs MuJoCo {Rd} for pair / primitive kind {qk}")
+      Rm = np.array([mjd.contact[i].includemargin for i in rq[qk]])
+      if np.abs(Rm - Rm[0]).max() == 0:
+        Gm = np.array([con["includemargin"][i] for i in gq[qk]], dtype=np.float64)
+        pok &= "ok" == judge(rec, "contact.includemargin", Gm, np.broadcast_to(Rm[0], Gm.shape), 1e-6, 0, suffix=":" + pth + (":flex-gap" if any_gap else ""), ctx=f"{ctx} pair / primitive kind {qk}")
+    if not pok:
+      contacts_match = False
     if contacts_match and struct_stable and not boundary and len(mjd.contact) and not cok:
       contacts_match = False
     # ---- constraint rows (multiset per (type, id))
@@ -714,9 +1043,47 @@ def run_case(case):
               gi = min(gis, key=lambda i: np.abs(G["J"][i] - R["J"][ri]).max() + abs(G["pos"][i] - R["pos"][ri]))
               gis.remove(gi)
               jscale = 100 if not is_eq else 10
-              rok &= "ok" == judge(rec, "efc.J", G["J"][gi], R["J"][ri], 1e-4, jscale * nzJ, suffix=rowcls(key), ctx=f"{ctx} row {ri} key {key}")
-              rok &= "ok" == judge(rec, "efc.pos", G["pos"][gi], R["pos"][ri], 1e-5, 10 * nzJ, suffix=rowcls(key) + (":flex-gap" if (any_gap and isinstance(key[1], tuple)) else ""), ctx=f"{ctx} row {ri} key {key}")
-              rok &= "ok" == judge(rec, "efc.D", G["D"][gi] / max(1.0, abs(R["D"][ri])), R["D"][ri] / max(1.0, abs(R["D"][ri])), 1e-4, 0, suffix=rowcls(key), ctx=f"{ctx} row {ri} key {key}")
+              is_con = isinstance(key[1], tuple)
+              # mechanism predicates of two deviations of the contact rows (one signature each, fields downstream are not judged):
+              # an element of a dim=1 flex (capsule element) gets no Jacobian entries; solimp width <= mjMINVAL is a flat impedance in MuJoCo
+              dim1el = is_con and any(key[1][2 + s_] >= 0 and key[1][4 + s_] >= 0 and int(mjm.flex_dim[key[1][2 + s_]]) == 1 for s_ in (0, 1))
+              zerow = is_con and float(mjd.contact[int(R["id"][ri])].solimp[2]) <= MJ_MINVAL
+              okJ = "ok" == judge(rec, "efc.J", G["J"][gi], R["J"][ri], 1e-4, jscale * nzJ, suffix=rowcls(key) + (":dim1-element" if dim1el else ""), ctx=f"{ctx} row {ri} key {key}")
+              # friction rows of an elliptic contact carry pos = 0, margin = 0 in MuJoCo (MJWarp: pos = margin; the listed deviation
+              # efc.pos:plane-flex); the normal / pyramidal rows carry pos = dist: their own signature, so that a wrong distance or
+              # margin in the row that enters aref is not taken for the listed one
+              frow = is_con and key[0] == int(mujoco.mjtConstraint.mjCNSTR_CONTACT_ELLIPTIC) and R["pos"][ri] == 0.0 and R["margin"][ri] == 0.0
+              # pos of a contact row is the contact distance: same noise term as contact.dist above (vertex position spread)
+              nzP = max(noise["flexvert_xpos"], 1e-9) if is_con else nzJ
+              okP = "ok" == judge(rec, "efc.pos", G["pos"][gi], R["pos"][ri], 1e-5, 10 * nzP, suffix=rowcls(key) + ("" if (frow or not is_con) else (":flex-gap" if any_gap else "") + ":normal-row"), ctx=f"{ctx} row {ri} key {key}")
+              rok &= okJ and okP
+              if dim1el:
+                rok = False
+                rec.count("rows_skipped_downstream_of_dim1_element_jacobian")
+                continue
+              # contact rows: impedance from solimp at (pos - margin) can be steep (narrow width, dmax near 1): relative noise of D measured
+              nzD = 0 if is_eq else float(rownoise["_efc_lnD"][ri])
+              okD = "ok" == judge(rec, "efc.D", G["D"][gi] / max(1.0, abs(R["D"][ri])), R["D"][ri] / max(1.0, abs(R["D"][ri])), 1e-4, nzD, suffix=(":solimp-zero-width" if zerow else rowcls(key)), ctx=f"{ctx} row {ri} key {key}")
+              rok &= okD
+              if zerow and not okD:
+                rec.count("rows_skipped_downstream_of_zero_width_impedance")
+                continue
+              # aref = -b * (J qvel) - k * imp * (pos - margin) is downstream of the row's J and pos: judged when those agree
+              # (friction rows of an elliptic contact have pos = 0 in MuJoCo and no position term)
+              if not (okJ and (okP or frow)):
+                rec.count("rows_aref_skipped_downstream_of_J_or_pos")
+                continue
+              # the accepted (within-allowance) differences of J and pos propagate into aref with the row's own stiffness / damping
+              # (MuJoCo's efc_KBIP): |d aref| <= B |dJ|.|qvel| + K (I + |pos - margin| dI/dpos) |d(pos - margin)|; added to the bound
+              K_, B_, I_ = (float(x) for x in np.array(mjd.efc_KBIP).reshape(-1, 4)[ri][:3])
+              simp = np.array(mjd.contact[int(R["id"][ri])].solimp) if is_con else (np.array(mjm.eq_solimp[int(R["id"][ri])]) if is_eq else None)
+              slope = 0.0 if simp is None or simp[2] <= MJ_MINVAL else max(1.0, simp[4]) * abs(simp[1] - simp[0]) / simp[2]
+              pm_r = float(R["pos"][ri] - R["margin"][ri])
+              dpm = abs(float(G["pos"][gi] - G["margin"][gi]) - pm_r)
+              explained = B_ * float(np.abs(G["J"][gi] - R["J"][ri]) @ np.abs(states[w]["qvel"].astype(np.float64))) + K_ * (I_ + abs(pm_r) * slope) * dpm
+              rok &= "ok" == judge(rec, "efc.aref", G["aref"][gi], R["aref"][ri], 1e-4, float(rownoise["_efc_aref"][ri]) + explained / cmp.C_NOISE, suffix=rowcls(key), ctx=f"{ctx} row {ri} key {key}")
+              if is_con:
+                rec.cover("rows_contact_D_aref_compared:" + path(key[1]), 1)
     if rows_match and not rok:
       rows_match = False
     # ---- gated post-solver comparison
@@ -740,7 +1107,9 @@ def run_case(case):
   active = any(i["mech"] != "none" for i in infos) or mjm.nflex > 0
   if mjm.nflexvert >= 3 and displaced and active:
     rec.nontrivial(xml, *[s["qpos"] for s in states], *[s["qvel"] for s in states])
-  rec.sample = {"scene_seed": seed, "flexes": [{k: (v if not isinstance(v, np.ndarray) else v.tolist()) for k, v in i.items() if k != "extent"} for i in infos], "nv": mjm.nv, "nflexvert": mjm.nflexvert, "nflexedge": mjm.nflexedge, "neq": mjm.neq, "ngeom": mjm.ngeom, "worlds": nworld, "features": feat}
+  if mix:
+    rec.cover("mix:cases_run", 1)
+  rec.sample = {"family": "mix" if mix else "general", "scene_seed": seed, "flexes": [{k: (v if not isinstance(v, np.ndarray) else v.tolist()) for k, v in i.items() if k not in ("extent", "half")} for i in infos], "nv": mjm.nv, "nflexvert": mjm.nflexvert, "nflexedge": mjm.nflexedge, "neq": mjm.neq, "ngeom": mjm.ngeom, "worlds": nworld, "features": feat}
   return rec.result()
 
 
@@ -765,4 +1134,24 @@ def requirements(agg, tier):
     unmet.append("fewer than 30 distinct non-trivial cases")
   if cov.get("rows:flex-equality", 0) + cov.get("rows:contact", 0) < 100:
     unmet.append("fewer than 100 constraint rows compared")
+  # contact-parameter mixing family: every branch of the mixing rule must have been compared on pairs with contacts in both engines
+  for name, least in (
+    ("mix:pairs_blend_with_unequal_solmix", 20),
+    ("mix:pairs_priority_decides", 10),
+    ("mix:pairs_solmix_one_side_below_minval", 3),
+    ("mix:pairs_solref_direct_one_side", 5),
+    ("mix:pairs_unequal_friction", 20),
+    ("mix:pairs_unequal_condim", 10),
+    ("mix:pairs_margin_on_both_sides", 5),
+  ):
+    if cov.get(name, 0) < least:
+      unmet.append(f"contact-parameter mixing: {name} = {cov.get(name, 0)} < {least} (world, pair) comparisons")
+  npair = {p: cov.get("contact_pairs_parameters_compared:" + p, 0) for p in ("plane-flex", "geom-flex", "flex-flex")}
+  for p, v in npair.items():
+    if v < 5:
+      unmet.append(f"contact-parameter mixing: fewer than 5 {p} pairs with contacts in both engines")
+  if cov.get("rows:contact", 0) < 100:
+    unmet.append("fewer than 100 flex contact rows (efc D / aref) compared")
+  if not any(k.startswith("mix:batched_field_rows:") for k in cov):
+    unmet.append("no case with per-world (batched) geom contact parameters ran")
   return unmet
